@@ -36,7 +36,10 @@
    of pipeline actions [sch k] (k = number of the pull; disabled actions are no-ops) and then the
    canonical strategy Sched.default_pick until the pull is over (a block with data has arrived,
    or the stream has ended).  Any complete schedule is of this form with an empty canonical part
-   (ReaderProofs.pull_complete_schedule), so quantifying over [sch] quantifies over all of them. *)
+   (ReaderProofs.pull_complete_schedule), so quantifying over [sch] quantifies over all of them.
+   Pool tasks that start or finish while the reader is not being polled are not lost: the
+   reader observes the pipeline only during a pull, so such a step is the same step played at
+   the beginning of the next pull's segment. *)
 From Coq Require Import List NArith Bool Arith.
 From NV Require Import Bgzf.Vpos Bgzf.Gzi Bgzf.ReaderOps Io.Sched.
 Import ListNotations.
